@@ -2,6 +2,8 @@
 
 Correspondence: Model/Tlv.v (extracted) vs ndn.encoding.tlv_model on random model *classes* built with
 type() (incl. IncludeBase/override) and on every shipped TlvModel class (reflected on this run).
+Derivation: random families of class DEFINITIONS (IncludeBase of 0..3 bases, diamonds, overrides, nested includes);
+the expected field list comes from the extracted collect (Model/TlvCollect.v), not from the class.
 Direct oracle on the implementation: announced size = produced size; T/L in shortest form; integers in
 the smallest legal width unless fixed; parse(encode(v)) = v; unknown non-critical elements inserted at
 any position of any nesting level are ignored; unknown / repeated / out-of-order critical ones rejected.
@@ -19,7 +21,19 @@ RULE = ('random TlvModel classes (1..6 fields per level, nesting <= 3, type numb
         'shipped TlvModel classes; values at every integer width boundary, non-ASCII text, 0/252/253/65535/65536+ '
         'byte strings; wires: encoder output, single-edit mutants, unknown critical/non-critical elements inserted at '
         'every position of every level, duplicated and swapped elements. non-trivial = at least two fields present or '
-        'a nested level; distinct by (descriptor, value/wire) hash')
+        'a nested level; distinct by (descriptor, value/wire) hash. '
+        'Class DEFINITIONS with derivation: families of 2..7 classes defined at run time with type() over a pool of 2..8 '
+        'attribute names -- 0..3 bases each (plain inheritance, IncludeBase of one / two / three bases, the same base '
+        'twice, includes of classes that include, bases sharing names through common ancestors = diamonds), 0..4 own '
+        'fields placed before / between / after the includes, 60% of them carrying a name of an included base '
+        '(override after the include, own field replaced by a later include), overrides keeping or changing the Type '
+        'number and the kind, fields that are sub-models of earlier classes of the family; the EXPECTED field list '
+        'is computed from the definition by the extracted collect of Model/TlvCollect.v (theorems C08_collect_*: base '
+        'bodies pasted at their IncludeBase, each name once at its first place with its last field), never read from '
+        'the class; oracle: the class is definable, _encoded_fields is that list (same Field objects, same order), and '
+        'instances addressed by the expected names pass every oracle above under the expected descriptor; '
+        'non-trivial = at least one IncludeBase; strata classdef.<includes>.<nested|plain-base|replace-in-include|'
+        'override-after|own-before-include>')
 ASSUMPTIONS = ['str<->UTF-8 conversion is done by CPython in the adapter; the model works on the UTF-8 bytes',
                'False / [] / {} are canonicalised to "absent" by the adapter (they encode to nothing)']
 
@@ -184,10 +198,36 @@ def unknown_types(d):
     return nc, cr
 
 
-def run_class(ctx, M, d, nvals, origin, shipped=False):
-    """d: reflected descriptor (with class refs) of a top-level model class."""
+def to_py_named(d, v, names):
+    """D.to_py for a top-level model whose attribute names are given by the harness (the EXPECTED field list of a
+    generated class definition) instead of being read back from cls._encoded_fields."""
+    obj = d[3]()
+    for name, (t, fd), fv in zip(names, d[2], v[1]):
+        pv = D.to_py(fd, fv)
+        if fd[0] in ('rep', 'map') and pv is None:
+            continue
+        obj.__dict__[name] = pv
+    return obj
+
+
+def from_py_named(d, o, names):
+    return ('m', [D.from_py(fd, o.__dict__[name]) if name in o.__dict__ else None
+                  for name, (t, fd) in zip(names, d[2])])
+
+
+def run_class(ctx, M, d, nvals, origin, shipped=False, names=None):
+    """d: descriptor (with class refs) of a top-level model class: reflected from the class, or -- with [names] --
+    the field list the harness expects for a class definition it generated (attribute names in [names])."""
     rng = ctx.rng
     cls = d[3]
+    if names is None:
+        to_py, from_py = D.to_py, D.from_py
+    else:
+        def to_py(dd, v):
+            return to_py_named(dd, v, names)
+
+        def from_py(dd, o):
+            return from_py_named(dd, o, names)
     fs = D.fields_sexp(d)
     wf = wf_desc(d)
     if not wf:
@@ -218,7 +258,7 @@ def run_class(ctx, M, d, nvals, origin, shipped=False):
                     break
         vs = [D.val_sexp(x) for x in v[1]]
         case = {'class': origin, 'fields': repr(TG.strip(d))[:1500], 'value': repr(v)[:1500]}
-        obj = impl(D.to_py, d, v)
+        obj = impl(to_py, d, v)
         if obj[0] == 'err':
             ctx.stat('adapter_skip')
             continue
@@ -252,7 +292,7 @@ def run_class(ctx, M, d, nvals, origin, shipped=False):
         if ln[0] == 'ok' and ln[1] != len(w):
             ctx.violation('TlvModel.encoded_length', 'size-mismatch', f'announced {ln[1]} produced {len(w)}', case)
         check_minimal(ctx, d, v, w, case)
-        back = impl(lambda: D.from_py(d, cls.parse(w, ignore_critical=d[1])))
+        back = impl(lambda: from_py(d, cls.parse(w, ignore_critical=d[1])))
         cmp(ctx, 'TlvModel.parse', {'wire': w, **case}, M([3, fs, d[1], w]), back,
             lambda o: [D.val_sexp(x) for x in o[1]])
         if back[0] != 'ok' or back[1] != v:
@@ -291,7 +331,7 @@ def run_class(ctx, M, d, nvals, origin, shipped=False):
             elif kind == 'del':
                 del lvl[posn]
             w2 = TG.ser_tree(tr2)
-            r2 = impl(lambda: D.from_py(d, cls.parse(w2, ignore_critical=d[1])))
+            r2 = impl(lambda: from_py(d, cls.parse(w2, ignore_critical=d[1])))
             cmp(ctx, 'TlvModel.parse', {'wire': w2, 'edit': kind, **case}, M([3, fs, d[1], w2]), r2,
                 lambda o: [D.val_sexp(x) for x in o[1]])
             if kind == 'ins_nc' and (r2[0] != 'ok' or r2[1] != v):
@@ -322,10 +362,225 @@ def run_class(ctx, M, d, nvals, origin, shipped=False):
         # ---- byte-level mutants (model correspondence only)
         for _ in range(ctx.n(3, 12)):
             w3 = G.mutate_bytes(rng, w)
-            r3 = impl(lambda: D.from_py(d, cls.parse(w3, ignore_critical=d[1])))
+            r3 = impl(lambda: from_py(d, cls.parse(w3, ignore_critical=d[1])))
             cmp(ctx, 'TlvModel.parse', {'wire': w3, **case}, M([3, fs, d[1], w3]), r3,
                 lambda o: [D.val_sexp(x) for x in o[1]])
             ctx.case(('mut', w3, repr(TG.strip(d))), True, None, f'{origin}.mutant.{r3[0]}')
+
+
+# ---------------------------------------------------------------------------------------------------------------
+# Generated CLASS DEFINITIONS (derivation): plain inheritance, IncludeBase of one / two / three bases, bases that
+# share field names (diamonds), own fields before / between / after the includes that carry a name of an included
+# base (overrides), includes of classes that include (nested), the same base included twice.  The class is DEFINED
+# here with type(); the expected field list is NOT read from the class: the definition is sent to the extracted
+# [collect] of Model/TlvCollect.v (theorems C08_collect_*: = the base bodies pasted at their IncludeBase, every name
+# once, at the place of its first declaration, with the field of its last declaration).
+FIELD_NAMES = ['fa', 'fb', 'fc', 'fd', 'fe', 'ff', 'fg', 'fh']
+
+
+class Hierarchy:
+    """decls[k] = (name index, Type number, descriptor); classes[i] = {'bases': [class idx], 'body': [item]},
+    item = ('own', decl idx) | ('inc', class idx)."""
+
+    def __init__(self):
+        self.decls = []
+        self.classes = []
+        self.objs = {}        # decl idx -> Field object
+        self._sexp = {}
+        self._names = {}
+
+    def body_sexp(self, i):
+        if i not in self._sexp:
+            self._sexp[i] = [[0, self.decls[it[1]][0], it[1]] if it[0] == 'own' else [1, self.body_sexp(it[1])]
+                             for it in self.classes[i]['body']]
+        return self._sexp[i]
+
+    def names_of(self, i):
+        """names declared in class i or, recursively, in what it includes"""
+        if i not in self._names:
+            out = set()
+            for it in self.classes[i]['body']:
+                out |= {self.decls[it[1]][0]} if it[0] == 'own' else self.names_of(it[1])
+            self._names[i] = out
+        return self._names[i]
+
+    def shape(self, i):
+        body = self.classes[i]['body']
+        incs = [(k, it[1]) for k, it in enumerate(body) if it[0] == 'inc']
+        tags = [f'inc{min(len(incs), 3)}']
+        if self.classes[i]['bases'] and len({b for _, b in incs}) < len(self.classes[i]['bases']):
+            tags.append('plain-base')
+        if any(any(x[0] == 'inc' for x in self.classes[b]['body']) for _, b in incs):
+            tags.append('nested')
+        seen = set()
+        for k, it in enumerate(body):
+            if it[0] == 'inc':
+                if seen & self.names_of(it[1]):
+                    tags.append('replace-in-include')
+                seen |= self.names_of(it[1])
+            else:
+                n = self.decls[it[1]][0]
+                if any(k2 < k and n in self.names_of(b) for k2, b in incs):
+                    tags.append('override-after')
+                if any(k2 > k and n in self.names_of(b) for k2, b in incs):
+                    tags.append('own-before-include')
+                seen.add(n)
+        return sorted(set(tags))
+
+    def render(self, i):
+        """pseudo-source of class i and of every class it derives from (for the report)"""
+        need, todo = set(), [i]
+        while todo:
+            j = todo.pop()
+            if j not in need:
+                need.add(j)
+                todo += self.classes[j]['bases']
+        out = []
+        for j in sorted(need):
+            c = self.classes[j]
+            lines = []
+            for k, it in enumerate(c['body']):
+                if it[0] == 'own':
+                    n, t, fd = self.decls[it[1]]
+                    lines.append(f'{FIELD_NAMES[n]} = field#{it[1]}(type {t:#x}, {TG.strip(fd)!r:.120})')
+                else:
+                    lines.append(f'_inc{k} = IncludeBase(C{it[1]})')
+            bases = ', '.join(f'C{b}' for b in c['bases']) or 'TlvModel'
+            out.append(f'class C{j}({bases}): ' + '; '.join(lines or ['pass']))
+        return out
+
+
+def rand_hierarchy(rng, built):
+    """One random family of class definitions.  [built] : class idx -> (cls, expected descriptor) of the classes
+    already defined and found as expected (usable as sub-models of later fields)."""
+    h = Hierarchy()
+    nnames = rng.randint(2, len(FIELD_NAMES))
+    ncls = rng.randint(2, 7)
+    name_slot = rng.randrange(nnames)
+    used = {7}
+
+    def fresh_type():
+        while True:
+            t = rng.choice(TG.TYPE_POOL) if rng.random() < 0.7 else rng.randint(1, 1 << 32)
+            if t not in used:
+                used.add(t)
+                return t
+
+    def new_decl(n, sub_ok):
+        prev = [d for d in h.decls if d[0] == n]
+        t = rng.choice(prev)[1] if prev and rng.random() < 0.3 else fresh_type()   # an override may keep the Type
+        r = rng.random()
+        if sub_ok and r < 0.12:
+            j = rng.choice(sub_ok)
+            fd = ['model', rng.random() < 0.2, built[j][1][2], built[j][0]]
+        else:
+            fd = TG.rand_kind(rng, rng.choice([0, 0, 1, 1, 2]))
+            if n == name_slot and rng.random() < 0.4:
+                fd = rng.choice([('name',), ('name',), ('rep', ('name',))])
+            is_name = fd[0] == 'name' or (fd[0] == 'rep' and fd[1][0] == 'name')
+            if is_name and n == name_slot:
+                t = 7               # a NameField always writes Type 7 (as in TG.rand_model); one attribute name only
+            elif is_name:
+                fd = ('bytes', False)
+            if fd[0] == 'map':
+                fd = ('map', fd[1], fresh_type(), fd[3])
+        h.decls.append((n, t, fd))
+        return len(h.decls) - 1
+
+    def gen_class(i):
+        if i == 0 or rng.random() < 0.12:
+            bases = []
+        else:
+            bases = rng.sample(range(i), min(i, rng.choice([1, 1, 2, 2, 2, 3])))
+        items = []
+        for b in bases:
+            r = rng.random()
+            if r < 0.85:
+                items.append(('inc', b))
+            if r < 0.06:
+                items.append(('inc', b))       # the same base included twice
+        inherited = sorted(set().union(*[h.names_of(b) for b in bases])) if bases else []
+        own = []
+        for _ in range(rng.choice([0, 1, 1, 2, 2, 3, 4])):
+            n = rng.choice(inherited) if inherited and rng.random() < 0.6 else rng.randrange(nnames)
+            if n not in own:
+                own.append(n)
+        sub_ok = [j for j in built if built[j][1][2]]
+        items += [('own', new_decl(n, sub_ok)) for n in own]
+        rng.shuffle(items)
+        return {'bases': bases, 'body': items}
+    return h, ncls, gen_class
+
+
+_hcnt = [0]
+
+
+def run_hierarchy(ctx, M, nvals):
+    from ndn.encoding import tlv_model as TM
+    rng = ctx.rng
+    _hcnt[0] += 1
+    built, shadows, classes = {}, [], []
+    h, ncls, gen_class = rand_hierarchy(rng, built)
+    for i in range(ncls):
+        c = gen_class(i)
+        # Python's own rules first (a consistent method resolution order must exist): mirror the bases with plain
+        # classes; base orders that Python itself refuses are re-ordered (most derived first) or dropped
+        shadow = None
+        for order in (c['bases'], sorted(c['bases'], reverse=True)):
+            try:
+                shadow = type(f'S{i}', tuple(shadows[b] for b in order), {})
+                c['bases'] = list(order)
+                break
+            except TypeError:
+                continue
+        if shadow is None:
+            ctx.stat('classdef.python-mro-refused')
+            break
+        h.classes.append(c)
+        shadows.append(shadow)
+        attrs = {}
+        try:
+            for k, it in enumerate(c['body']):
+                if it[0] == 'own':
+                    n, t, fd = h.decls[it[1]]
+                    h.objs[it[1]] = attrs[FIELD_NAMES[n]] = D.build_field(t, fd)
+                else:
+                    attrs[f'_inc{k}'] = TM.IncludeBase(classes[it[1]])
+        except Exception as e:   # noqa  (a field constructor of the tree under test raised)
+            ctx.disagree('field construction', f'{type(e).__name__}: {e}', h.render(i))
+            break
+        shape = h.shape(i)
+        case = {'definition': h.render(i), 'class': f'C{i}', 'shape': shape}
+        exp = M([6, h.body_sexp(i)])
+        if is_err(exp):
+            ctx.disagree('collect', 'model bad request', case, exp, None)
+            break
+        exp = [(int(n), int(k)) for n, k in exp]
+        case['expected _encoded_fields'] = [f'{FIELD_NAMES[n]}=field#{k}' for n, k in exp]
+        ctx.case(('classdef', repr(h.body_sexp(i)), repr([TG.strip(h.decls[k][2]) for _, k in exp])),
+                 'inc0' not in shape, None, 'classdef.' + '.'.join(shape))
+        # (a) a legal definition must be accepted
+        try:
+            cls = type(f'GenH{_hcnt[0]}C{i}', tuple(classes[b] for b in c['bases']) or (TM.TlvModel,), attrs)
+        except Exception as e:   # noqa
+            ctx.violation('TlvModelMeta', 'class-not-definable',
+                          f'defining the class raises {type(e).__name__}: {e}', case)
+            break
+        classes.append(cls)
+        # (b) the collected fields are the expected ones, in the expected order
+        got = list(cls._encoded_fields)
+        rev = {id(o): k for k, o in h.objs.items()}
+        if len(got) != len(exp) or any(g is not h.objs[k] or g.name != FIELD_NAMES[n] for g, (n, k) in zip(got, exp)):
+            case['got _encoded_fields'] = [f'{g.name}=field#{rev.get(id(g), "?")}' for g in got]
+            ctx.violation('TlvModelMeta', 'field-collection',
+                          'the fields collected for the class are not the declared ones in declared order (bases '
+                          'spliced in at their IncludeBase, an existing name replaced in place)', case)
+            continue
+        dexp = ['model', rng.random() < 0.15, [(h.decls[k][1], h.decls[k][2]) for _, k in exp], cls]
+        built[i] = (cls, dexp)
+        # (c) instances encode every expected field once, in that order, with the announced size, and parse back
+        if exp and rng.random() < (0.3 if 'inc0' in shape else ctx.n(1.0, 0.35)):
+            run_class(ctx, M, dexp, nvals, 'derived', names=[FIELD_NAMES[n] for n, _ in exp])
 
 
 def run(ctx):
@@ -367,3 +622,6 @@ def run(ctx):
                           {'expected': repr(TG.strip(spec)), 'got': repr(TG.strip(d))})
             continue
         run_class(ctx, M, d, ctx.n(3, 6), 'generated')
+    # random class DEFINITIONS with derivation; expectation from the extracted collect (Model/TlvCollect.v)
+    for i in range(ctx.n(150, 3000)):
+        run_hierarchy(ctx, M, 2)
